@@ -109,3 +109,13 @@ let () = register "lsp_nlc" (fun args ->
     match args with
     | [h] -> if no_lone_cr_b (doc_of_hex h) then "1" else "0"
     | _ -> "error\targs")
+
+(* lsp_spec_doc <hexsrc> <maxline> <maxchar> -> spec_offset for l in 0..maxline, c in 0..maxchar ("none" inside a pair) *)
+let () = register "lsp_spec_doc" (fun args ->
+    match args with
+    | [h; ml; mc] ->
+      let s = doc_of_hex h in
+      let ml = int_of_string ml and mc = int_of_string mc in
+      String.concat "," (List.concat (List.init (ml + 1) (fun l -> List.init (mc + 1) (fun c ->
+          show_optn (spec_offset s (n_of_int l) (n_of_int c))))))
+    | _ -> "error\targs")
